@@ -82,7 +82,7 @@ def sharedState : List String := ["node/average.go:GetPegNetRateAverages:node:La
 
 def apiSharedState : List String := ["srv/methods.go:getBank:srv:Synced", "srv/methods.go:getMiningDominance:srv:Synced", "srv/methods.go:getMiningDominance:srv:Synced", "srv/methods.go:getMiningDominance:srv:Synced", "srv/methods.go:rateAverages:srv:private:s.avgMu", "srv/methods.go:rateAverages:srv:private:s.avgMu", "srv/methods.go:rateAverages:srv:private:s.avgNode", "srv/methods.go:rateAverages:srv:new:node.Pegnetd{Pegnet: s.Node.Pegnet}", "srv/methods.go:rateAverages:srv:private:s.avgNode", "srv/methods.go:rateAverages:srv:call:s.avgNode.GetPegNetRateAverages", "srv/methods.go:rateAverages:srv:private:s.avgNode", "srv/methods.go:getGlobalRichList:srv:call:s.Node.GetCurrentSync", "srv/methods.go:getRichList:srv:call:s.Node.GetCurrentSync", "srv/methods.go:getPegnetRates:srv:Synced", "srv/methods.go:getSyncStatus:srv:call:s.Node.GetCurrentSync", "srv/methods.go:getSyncStatus:srv:call:s.Node.GetCurrentSync", "srv/methods.go:getGraded:srv:Synced"]
 
-def goStatements : List String := ["cmd/root.go:always:cmd:go:func() {", "node/sync.go:multiFetch:node:go:func() {", "srv/methods.go:getPegnetIssuance:srv:go:func() {", "srv/srv.go:Start:srv:go:func() {", "srv/srv.go:Start:srv:go:func() {"]
+def goStatements : List String := ["cmd/root.go:always:cmd:go:func() {", "node/sync.go:multiFetch:node:go:func() {", "srv/srv.go:Start:srv:go:func() {", "srv/srv.go:Start:srv:go:func() {"]
 
 def missing : List String := []
 
